@@ -102,6 +102,8 @@ class World:
         self.net = SimNet(self)
         self.tls_context = SimTLSContext(self) if self.tls else None
         self.max_open = 0
+        self.health_log = []
+        self.ok_log = []
         self.open_limit = spec.get("open_limit")
         self.piece_cap = 64
         self.capture_rx = bool(spec.get("capture_rx"))
@@ -165,6 +167,7 @@ class World:
 
     def health_fault(self, sock, kind):
         ctx = self.ctx()
+        self.health_log.append((self.seq, sock.target, kind, ctx.id))
         ctx.fired.append(("health", 0, kind, sock.id))
         self.stats["fault:health-" + kind] += 1
         if sock.conn is not None:
@@ -172,7 +175,7 @@ class World:
 
     def command_seen(self, node, owner, verb, key, detail):
         ctx = self.ctx()
-        ctx.commands.append((node.id, verb, key, detail))
+        ctx.commands.append((node.id, verb, key, detail, self.seq))
 
     def reply_hook(self, conn, owner, data):
         """Called by a node for every reply unit; applies reply-level faults."""
@@ -298,6 +301,7 @@ class SimSocket:
         self.created_seq = world.seq
         self.ncmd_sends = 0
         self.failed_call = None
+        self.target = None
         self.closed_seq = None
         world.ctx().socks.append(self.id)
         no = len(world.open_sockets())
@@ -362,6 +366,7 @@ class SimSocket:
             raise OSError(errno.EISCONN, "sim: already connected")
         key = addr if isinstance(addr, str) else (addr[0], int(addr[1]))
         nid = w.addr.get(key)
+        self.target = nid
         node = w.nodes.get(nid)
         if node is None or node.health == "refuse":
             w.health_fault(self, "refuse")
@@ -423,11 +428,15 @@ class SimSocket:
             conn.broken = True
             raise ConnectionResetError(errno.ECONNRESET, "sim: connection reset by peer")
         ctx.sent += len(data)
+        if h == "eof":
+            w.health_fault(self, "eof")
+            return None
         if conn.peer_closed:
             w.health_fault(self, "peer-closed")   # the server had closed this connection
             return None
-        if h in ("blackhole", "eof"):
+        if h == "blackhole":
             return None   # bytes vanish
+        w.ok_log.append((w.seq, self.target, ctx.id))
         node.feed(conn, bytes(data), ctx.id)
         return None
 
